@@ -483,6 +483,50 @@ void vh_run_case(Ctx &ctx)
             }
         }
     }
+    // a child that occurs twice (an exact copy appended to its list: {x, y} -> {x, y, y}); the mutation then alters
+    // the copy only ({x, y, z}): a matcher that lets one child of the other side serve twice calls the two equal
+    int dupKind = -1; // 0 variable, 1 reset, 2 units of the model
+    int dupComp = -1;
+    if (!twins && mode >= 5 && rng.chance(0.15)) {
+        std::vector<std::pair<int, int>> cands;
+        for (size_t ci = 0; ci < ir.comps.size(); ++ci) {
+            if (ir.comps[ci].import >= 0) {
+                continue;
+            }
+            if (!ir.comps[ci].vars.empty()) {
+                cands.emplace_back(0, static_cast<int>(ci));
+            }
+            if (!ir.comps[ci].resets.empty()) {
+                cands.emplace_back(1, static_cast<int>(ci));
+            }
+        }
+        for (const auto &u : ir.units) {
+            if (u.import < 0) {
+                cands.emplace_back(2, -1);
+                break;
+            }
+        }
+        if (!cands.empty()) {
+            auto pick = rng.pick(cands);
+            dupKind = pick.first;
+            dupComp = pick.second;
+            if (dupKind == 0) {
+                auto &vs = ir.comps[static_cast<size_t>(dupComp)].vars;
+                vs.push_back(vs[rng.below(vs.size())]);
+            } else if (dupKind == 1) {
+                auto &rs = ir.comps[static_cast<size_t>(dupComp)].resets;
+                rs.push_back(rs[rng.below(rs.size())]);
+            } else {
+                std::vector<size_t> local;
+                for (size_t ui = 0; ui < ir.units.size(); ++ui) {
+                    if (ir.units[ui].import < 0) {
+                        local.push_back(ui);
+                    }
+                }
+                ir.units.push_back(ir.units[rng.pick(local)]);
+            }
+        }
+    }
     ModelPtr A = buildApi(ir);
     Cmp cmp;
     cmp.replay = "IR of A:\n" + dumpIr(ir);
@@ -572,6 +616,38 @@ void vh_run_case(Ctx &ctx)
             mu.name = "identical-siblings.alter-one";
             mu.kind = twinParent >= 0 ? "component" : "model";
             mu.comp = twinParent;
+            mu.ok = true;
+        } else if (dupKind >= 0) {
+            // alter the appended copy only
+            int how = rng.range(0, 1);
+            if (dupKind == 0) {
+                auto &v = mir.comps[static_cast<size_t>(dupComp)].vars.back();
+                if (how == 0) {
+                    v.id = v.id + "_altered";
+                } else {
+                    v.init = v.init == "42" ? "43" : "42";
+                }
+            } else if (dupKind == 1) {
+                auto &r = mir.comps[static_cast<size_t>(dupComp)].resets.back();
+                if (how == 0) {
+                    r.id = r.id + "_altered";
+                } else {
+                    r.hasOrder = true;
+                    r.order += 7;
+                }
+            } else {
+                auto &u = mir.units.back();
+                if (how == 0) {
+                    u.id = u.id + "_altered";
+                } else {
+                    IrUnit k;
+                    k.ref = "candela";
+                    u.units.push_back(k);
+                }
+            }
+            mu.name = std::string("duplicated-child.alter-copy:") + (dupKind == 0 ? "variable" : (dupKind == 1 ? "reset" : "units"));
+            mu.kind = dupKind == 2 ? "model" : "component";
+            mu.comp = dupComp;
             mu.ok = true;
         } else {
             mu = mutate(mir, rng);
